@@ -4,6 +4,8 @@ import LettreVerif.Props.C17
 #print axioms LV.C17.name_case_insensitive
 #print axioms LV.C17.date_time_of_day
 #print axioms LV.C17.date_roundtrip
+#print axioms LV.C17.date_header_roundtrip
+#print axioms LV.C17.date_year_ge_1970
 #print axioms LV.C17.date_injective
 #print axioms LV.C17.date_fields_in_range
 #print axioms LV.C17.mailbox_roundtrip
